@@ -243,7 +243,7 @@ PROPS = {
   ],
   "nontrivial": {"fn": lambda js: cnt(js, "vec.pairs") >= 100 or (cnt(js, "geo.faces") >= 3 and cnt(js, "geo.halfedges") >= 6),
                  "text": "part vec: dims 2,3,4 x {int, unsigned, float, double}. Integer types: ALL ordered pairs over the lattice {-3..3}^DIM resp. {0..6}^DIM, chunked by first vector (quick: dims 2 and 3 complete, dim 4 sampled chunks; thorough: all three dims complete = 49+117649+5764801 pairs per type); floating types: random magnitudes over 60 binades + specials (0,-0, denormals, 1e17, 1e150, equal components, equal vectors). Every pair is pushed through + - * / (vector and scalar, in-place forms), unary minus, ==, !=, lexicographic <, |, dot, %, cross, sqrnorm, norm, length, normalize/normalized/normalize_cond, max/min/max_abs/min_abs/l1_norm/l8_norm/mean/mean_abs, minimize/maximize/minimized/maximized/min/max, converting constructor/assignment, << >> round trip, swap, vectorized; exact for integers, 8 ulp-scaled for floats. Every fourth sub-case: MIXED scalar types - the 12 ordered pairs of distinct scalar types x dims 2,3,4: dot/cross (result in the common type), + - * / between VectorT<A> and VectorT<B> and with a scalar of type B (result VectorT<A>), compound forms, converting construction, against the scalar C++ expression on the components (half of the pairs with values that make every intermediate exact, half with arbitrary values and an 8-ulp bound in the common type). part geo: random meshes (tets, square/pentagonal pyramids, prisms, octahedra + free polygons, positions with mixed magnitudes): vector/length/barycenter (edge, face, cell), halfface normal vs formula (well-conditioned faces), triangle normals of the two sides opposite, NormalAttrib face/halfface/vertex normals. non-trivial = >=100 pairs or >=3 faces and >=6 halfedges checked; distinct by chunk / mesh digest"},
-  "floor": {"quick": 300, "thorough": 3000},
+  "floor": {"quick": 300, "thorough": 2000},
   "min_counts": {"vec.pairs": 500000, "geo.normals": 2000, "geo.opposite-normals": 500, "geo.cells": 200, "geo.cells.non-simplicial": 50, "vec.mixed-pairs": 50000},
   "assumptions": COMMON_ASSUME + ["floating-point results are compared within 8 ulp of the operation's magnitude; values whose squares overflow are excluded", "apply() is not named by the property and not judged"],
  },
